@@ -46,6 +46,19 @@ def generate(rng, tier):
             cases.append({"dir": d, "X": X, "Y": Y, "xin": xin, "yin": y, "xout": xout, "dy": None, "mat": mat,
                           "lorch": False, "omitted": False, "channel": 0, "matched": True, "N": N, "dr": dr,
                           "desc": {"method": "%s_to_%s" % (names_in[X], names_out[Y]), "N": N, "matched": True, "data": kind}})
+    # one long matched pair (N = 4500, data that have not decayed anywhere): whatever path a size-dependent implementation takes
+    Nbig = 4500
+    drb = 0.01
+    rb = [j * drb for j in range(Nbig + 1)]
+    qb = [k * math.pi / (Nbig * drb) for k in range(Nbig + 1)]
+    for (d, X, Y) in ((0, 1, 1), (1, 1, 1)):
+        xin, xout = (qb, rb) if d == 0 else (rb, qb)
+        yb = [rng.uniform(-1, 1) for _ in xin]
+        yb[0] = yb[-1] = 0.0
+        names_in, names_out = (L.RN, L.GN) if d == 0 else (L.GN, L.RN)
+        cases.append({"dir": d, "X": X, "Y": Y, "xin": xin, "yin": yb, "xout": xout, "dy": None, "mat": L.material(rng),
+                      "lorch": False, "omitted": False, "channel": 0, "matched": True, "N": Nbig, "dr": drb, "big": True,
+                      "desc": {"method": "%s_to_%s" % (names_in[X], names_out[Y]), "N": Nbig, "matched": True, "data": "random", "size": "4501 x 4501"}})
     # closed-form family on three refinement levels (both directions), uniform and smoothly graded grids
     for i in range(4 if tier == "quick" else 12):
         terms = [(rng.uniform(0.5, 3.0) * rng.sgn(), rng.uniform(0.3, 2.0)) for _ in range(rng.choice([1, 2, 3]))]
@@ -106,6 +119,8 @@ def run_impl(pystog, case):
 
 
 def to_coq(case, res):
+    if case.get("big"):      # too long for a Coq literal: decided by the oracle alone
+        return None
     if "closed" in case and "levels" in res:
         return [("chk_named", F.named_to_coq(dict(case, xin=lv["xin"], yin=lv["yin"]), r)) for lv, r in zip(case["closed"]["levels"], res["levels"])]
     return F.named_to_coq(case, res)
@@ -159,7 +174,8 @@ def oracle(pystog, case, res):
                 else:        # S -> g -> S : dg = eps, back through 4 pi rho sum w r dg / Q
                     floor = 4 * math.pi * rho_ * float((wts * np.abs(xo_)).sum()) * 2.3e-16 / xs_
         scale = scale + 1e9 * 16 * floor
-        if (err > 1e-9 * scale).any():
+        # (a long pair: "inverse to within rounding error" taken more literally -- 1e-12 N max|data| is still 10^4 rounding units)
+        if (err > (1e-12 if case.get("big") else 1e-9) * scale).any():
             i = int(np.argmax(err / scale))
             return "%s then back: %r != original %r at index %d (N=%d)" % (case["desc"]["method"], float(y2[i]), float(y[i]), i, N)
         if base == 1.0 and y2[0] != 1.0:
